@@ -48,7 +48,7 @@ st("C13", "exploration", "deterministic simulation: junk-filling allocator betwe
    "Same input and options encoded three times with fresh non-zeroed memory filled with different patterns must be byte-identical; four write partitions (no flush) must give identical bytes for LZMA, LZIP and for LZMA2/XZ without chunk/block size.")
 st("C16", "exploration", "deterministic simulation: exact byte accounting on the source seam under random read sizes and short/Interrupted reads",
    "Valid LZMA (end marker; declared size), LZMA2 and single-stream XZ followed by nothing / zeros / another stream / random bytes: when the reader reports the end the source has handed out exactly the stream's bytes, and a second reader on the same source (into_inner) decodes the following stream.")
-st("C18", "exploration", "deterministic simulation: post-run analysis of recorded sink contents with independent parsers under one-huge vs many-small write histories (MT unit sizes and counts are checked in lzsim-mt C08)",
+st("C18", "exploration", "deterministic simulation: post-run analysis of recorded sink contents with independent parsers under one-huge vs many-small write histories (MT unit sizes and chunk/member counts: lzsim-mt scenario mt.sizes, merged into this check)",
    "XZ index records and LZIP trailers must not exceed max(block/member size, dict) and must sum to the input; .lzma expected size: write beyond it fails, finish short of it fails, header carries the bytes written.")
 
 st("C03", "exploration", "deterministic simulation with liblzma (static C library) as the second party on a chunked byte pipe; inputs x options by seeded generation",
@@ -67,6 +67,7 @@ st("C06", "exploration", "deterministic simulation: hostile media on the Read se
    "Budgets are the harness's formulae (documented in the evidence rule); stack overflow of MT readers is judged against the coroutine stack sizes the harness chooses.")
 CHECKS["C06"]["engine"] = "lzsim-st + lzsim-mt"
 CHECKS["C13"]["engine"] = "lzsim-st + lzsim-mt"
+CHECKS["C18"]["engine"] = "lzsim-st + lzsim-mt"
 
 st("C17", "exploration", "deterministic simulation: the allocator seam (counting global allocator, measurement scopes) around construction and a complete run; grid by seeded generation",
    "Peak requested heap of encoders and decoders is compared with the crate's estimators (sound: peak <= estimate; tight: estimate <= 1.25 x peak + 256 KiB) over a grid of dictionary sizes, lc/lp/pb, modes and match finders; new_mem_limit must refuse with OutOfMemory before allocating whenever the header needs more than the limit.",
